@@ -19,10 +19,10 @@ func propC18(c *Ctx) propInfo {
 	c.layoutVsSpec(func(k string) bool { return k == "tlb.MerkleProof" || k == "tlb.MerkleUpdate" })
 	c.errflow(excC06E2, "boc")
 	c.floor("E5.proof-layout", 8)
-	c.floor("E10.mask-propagation", 2)
+	c.floor("E10.mask-propagation", 3)
 	c.floor("E8.prove-key", 4)
 	return propInfo{
-		explanation: "Static structural clauses of C18 (DESIGN.md §4 C18): the pruned-branch cell built by the prover is type(8)=1, mask(8)=1, hash, depth(16) with exotic type pruned-branch and mask 1, and the hash and depth written are Hash(0) and Depth(0) of the node being replaced (through the accessors, so that an already pruned node contributes its stored values); the proof root is 3, Hash(0), Depth(0) of the original root plus one reference with exotic type Merkle proof; on a rebuilt node the mask is the OR over all rebuilt children; Merkle cells are refused by the pruner; ProveKeyInHashmap returns a proof only through an equality of the complete reconstructed and requested keys, prunes the sibling and follows the side it took. Decides these necessary conditions, not hash equality of the pruned tree.",
+		explanation: "Static structural clauses of C18 (DESIGN.md §4 C18): the pruned-branch cell built by the prover is type(8)=1, mask(8)=1, hash, depth(16) with exotic type pruned-branch and mask 1, and the hash and depth written are Hash(0) and Depth(0) of the node being replaced (through the accessors, so that an already pruned node contributes its stored values); the proof root is 3, Hash(0), Depth(0) of the original root plus one reference with exotic type Merkle proof; on a rebuilt node the mask is the OR over all rebuilt children; Merkle cells are refused by the pruner; ProveKeyInHashmap returns a proof only through an equality of the complete reconstructed and requested keys, prunes the sibling and follows the side it took. Decides these necessary conditions, not hash equality of the pruned tree. Each walk has its own pruning set (Cursor/Ref/Prune/CreateProof data flow).",
 	}
 }
 
@@ -206,6 +206,20 @@ func (c *Ctx) maskPropagation() {
 		})
 		c.check(stored, R, "the accumulated mask is stored on the rebuilt node", orOp.Pos(), "res.mask = mask", "the accumulated level mask is not stored on the rebuilt node")
 	}
+	// the accumulation starts from the node's own mask: a retained pruned branch (no children) keeps its level
+	own := false
+	allInstrs(f, func(_ *ssa.BasicBlock, in ssa.Instruction) {
+		if st, ok := in.(*ssa.Store); ok {
+			if of, ok := ownerField(st.Addr); ok && of == "boc.Cell.mask" {
+				for _, l := range leaves(st.Val) {
+					if l == "ic.mask" {
+						own = true
+					}
+				}
+			}
+		}
+	})
+	c.check(own, R, "the rebuilt node keeps the original node's own mask", f.Pos(), "mask := ic.mask | children", "pruneCells builds the copied node's level mask from its children only: a pruned-branch cell already present in the tree (no children) and all its ancestors come out with level 0, so the proof's level-0 hash no longer matches")
 }
 
 // proveKeyRules: ProveKeyInHashmap.
